@@ -272,14 +272,62 @@ Definition write_layerfile e (l : layer) : M unit :=
   write_file_atomically e (layerconfig_path l) (layerfile_chunks (l_base l) (l_mounts l) (l_exports l)).
 
 (* ------------------------------------------------------------------ names *)
-(* isLegalLayerName on ASCII: letters, digits, '_', and '-' except in first position.
-   Bytes >= 128 are outside the modelled domain (wf excludes them). *)
+(* isLegalLayerName: Go decodes the name as UTF-8 runes and accepts every Unicode letter
+   (category L), every decimal digit (Nd), '_', and '-' except at byte position 0.
+   Modelled here: the ASCII letters and digits, '_', '-', and the two-byte UTF-8 sequences
+   (lead byte, continuation byte 0x80..0xBF) whose code point lies in one of the ranges
+       U+00C0..U+00D6  U+00D8..U+00F6  U+00F8..U+02AF  U+0410..U+044F
+   (Latin-1 letters without U+00D7 and U+00F7, Latin Extended-A/B, IPA extensions, basic
+   Cyrillic).  Every code point of these ranges is of category L and none is white space
+   (checked against Go's unicode tables, docs/proofs-C02.md).  Any other byte >= 128 (a
+   sequence outside the ranges, a stray continuation byte, a truncated sequence, a longer
+   sequence) makes the functions below answer false; such names are outside the modelled
+   domain (LC.wf excludes them by [name_bytes_ok], which is built on the same decoder). *)
 Definition is_alnum (c : ascii) : bool :=
   let n := bn c in ((48 <=? n) && (n <=? 57)) || ((65 <=? n) && (n <=? 90)) || ((97 <=? n) && (n <=? 122)).
+(* code point of the two-byte sequence a b (meaningful when 0xC2 <= a <= 0xDF, 0x80 <= b <= 0xBF) *)
+Definition utf2_cp (a b : ascii) : N := (bn a - 192) * 64 + (bn b - 128).
+Definition letter_cp (n : N) : bool :=
+  ((192 <=? n) && (n <=? 214)) || ((216 <=? n) && (n <=? 246)) || ((248 <=? n) && (n <=? 687))
+  || ((1040 <=? n) && (n <=? 1103)).
+Definition utf2_letter (a b : ascii) : bool :=
+  (194 <=? bn a) && (bn a <=? 223) && (128 <=? bn b) && (bn b <=? 191) && letter_cp (utf2_cp a b).
+(* characters allowed after the first position / in the first position, one byte long *)
+Definition legal_char (c : ascii) : bool := is_alnum c || (bn c =? 95) || (bn c =? 45).
+Definition legal_char1 (c : ascii) : bool := is_alnum c || (bn c =? 95).
 Fixpoint legal_rest (s : bytes) : bool :=
-  match s with [] => true | c :: r => (is_alnum c || (bn c =? 95) || (bn c =? 45)) && legal_rest r end.
+  match s with
+  | [] => true
+  | c :: r =>
+    if legal_char c then legal_rest r
+    else match r with
+         | d :: r' => utf2_letter c d && legal_rest r'
+         | [] => false
+         end
+  end.
 Definition legal_name (s : bytes) : bool :=
-  match s with [] => true | c :: r => (is_alnum c || (bn c =? 95)) && legal_rest r end.
+  match s with
+  | [] => true
+  | c :: r =>
+    if legal_char1 c then legal_rest r
+    else match r with
+         | d :: r' => utf2_letter c d && legal_rest r'
+         | [] => false
+         end
+  end.
+
+(* the byte strings of the modelled domain (LC.wf): every byte >= 128 belongs to a well-formed
+   two-byte sequence of the ranges above *)
+Fixpoint name_bytes_ok (s : bytes) : bool :=
+  match s with
+  | [] => true
+  | c :: r =>
+    if bn c <? 128 then name_bytes_ok r
+    else match r with
+         | d :: r' => utf2_letter c d && name_bytes_ok r'
+         | [] => false
+         end
+  end.
 
 Inductive ntest := NNeed | NFree | NOptNeed.
 Definition test_name (m : lmap) (n : bytes) (t : ntest) : bool :=     (* true = passes *)
